@@ -117,12 +117,26 @@ class heap(object):
         return ptr_page["size"]
 
 
+def _sb_components(elts):
+    """Resolve the '.' and '..' components of @elts as a root directory does:
+    '..' goes back one component and never above the sandbox base directory.
+
+    """
+    out = []
+    for elt in elts:
+        if elt == '..':
+            del out[-1:]
+        elif elt and elt != '.':
+            out.append(elt)
+    return out
+
+
 def windows_to_sbpath(path):
     """Convert a Windows path to a valid filename within the sandbox
     base directory.
 
     """
-    path = [elt for elt in path.lower().replace('/', '_').split('\\') if elt]
+    path = _sb_components(path.lower().replace('/', '_').split('\\'))
     return os.path.join(BASE_SB_PATH, *path)
 
 
@@ -131,7 +145,7 @@ def unix_to_sbpath(path):
     base directory.
 
     """
-    path = [elt for elt in path.split('/') if elt]
+    path = _sb_components(path.split('/'))
     return os.path.join(BASE_SB_PATH, *path)
 
 def get_fmt_args(fmt, cur_arg, get_str, get_arg_n):
